@@ -12,28 +12,28 @@
 #if defined(ORDER_EVENT)
 #include "src/cmb_event.c"
 #define CMP heap_order_check
-#define TAG "C01-O1"
+#define TAG "C01-O1,C02-L4"
 /* time ascending, then priority DESCENDING, then handle ascending */
 #define SPEC(a,b) ((a)->dsortkey < (b)->dsortkey || ((a)->dsortkey == (b)->dsortkey && \
         ((a)->isortkey > (b)->isortkey || ((a)->isortkey == (b)->isortkey && (a)->key < (b)->key))))
 #elif defined(ORDER_GUARD)
 #include "src/cmb_resourceguard.c"
 #define CMP guard_queue_check
-#define TAG "C06-O1"
+#define TAG "C06-O1,C02-L4"
 /* priority DESCENDING, then entry time ascending, then key ascending */
 #define SPEC(a,b) ((a)->isortkey > (b)->isortkey || ((a)->isortkey == (b)->isortkey && \
         ((a)->dsortkey < (b)->dsortkey || ((a)->dsortkey == (b)->dsortkey && (a)->key < (b)->key))))
 #elif defined(ORDER_HOLDER)
 #include "src/cmb_resourcepool.c"
 #define CMP holder_queue_check
-#define TAG "C07-O5"
+#define TAG "C07-O5,C02-L4"
 /* victims: priority ASCENDING (lowest first), then key (address) DESCENDING */
 #define SPEC(a,b) ((a)->isortkey < (b)->isortkey || ((a)->isortkey == (b)->isortkey && (a)->key > (b)->key))
 #define NO_DKEY 1
 #elif defined(ORDER_PRIOQ)
 #include "src/cmb_priorityqueue.c"
 #define CMP compare_func
-#define TAG "C12-O1"
+#define TAG "C12-O1,C02-L4"
 /* priority DESCENDING, then handle ascending (FIFO) */
 #define SPEC(a,b) ((a)->isortkey > (b)->isortkey || ((a)->isortkey == (b)->isortkey && (a)->key < (b)->key))
 #define NO_DKEY 1
